@@ -323,7 +323,8 @@ static void ns_reply(const struct dnse_msg *m, int script, int phase, int cname,
 	for (int i = 0; i < tmp.n; i++) {
 		if (fam == AF_INET) dm_rr_a(&d, 1, owner, ttl, tmp.addr[i].a); else dm_rr_aaaa(&d, 1, owner, ttl, tmp.addr[i].a);
 	}
-	if (!tmp.n) dm_rr_soa(&d, 2, "test", 30, 30);
+	/* negative answers carry an SOA with its own, long, TTL: it must never become the lifetime of a cached positive answer */
+	if (!tmp.n) dm_rr_soa(&d, 2, "test", 300, 300);
 	len = dm_finish(&d);
 	dnse_reply_udp(m, buf, len);
 	dnse_wait_readable(evdns_base_get_nameserver_fd(dbase, 0));   /* delivery is normally synchronous; never depend on it */
@@ -349,10 +350,109 @@ static void advance_ms(int ms)
 	pump();
 }
 
+/* what the reference knows about the cache entry for DNAME */
+struct cmodel {
+	int valid;                      /* a successful resolution has been stored */
+	struct expect e;                /* its addresses */
+	uint32_t ttl_a, ttl_6, ttl_c;
+	int a_contrib, b_contrib, have_cname, orig_anysock, order;
+	int64_t t_cached;               /* virtual time of the callback that stored it */
+};
+
+/* One more request for DNAME after a wait.  A result without any new query is a cache hit: it must be
+ * legal (every contributing record within its TTL) and equal the stored answer restricted to the family.
+ * Otherwise the nameserver answers with the addresses of this round, which become the new entry. */
+static void later_round(int round, struct cmodel *m, int64_t *t_ref, int cname)
+{
+	static const int waits2[] = { 5, 50, 150, 20, 80 }, waits3[] = { 7, 100 };
+	static const char *const svcs[] = { "81", NULL, "0" };
+	struct dnse_msg msgs[8]; int n;
+	char what[32];
+	int wait = round == 2 ? waits2[mc_choose(mc_param("ages", 3), 0, "age")] : waits3[mc_choose(2, 0, "age3")];
+	struct evutil_addrinfo h2; memset(&h2, 0, sizeof h2);
+	h2.ai_family = fams[mc_choose(3, 0, "family2")];
+	int canon2 = 0;
+	const char *svc;
+	if (round == 2) {
+		h2.ai_socktype = mc_choose(mc_param("stpr2", 2), 0, "socktype2") ? 0 : SOCK_STREAM;
+		canon2 = mc_choose(2, 0, "canonname2");
+		/* service: "81", NULL or "0" (port 0: a hit must not keep the cached port).  Quick: derived from the other
+		 * choices so that both values meet every family / socktype / CANONNAME value; -P svc2=2|3: free choice */
+		int nsvc = mc_param("svc2", 1);
+		int fam2i = h2.ai_family == PF_UNSPEC ? 0 : h2.ai_family == PF_INET ? 1 : 2;
+		svc = svcs[nsvc > 1 ? mc_choose(nsvc > 3 ? 3 : nsvc, 0, "service2") : ((fam2i + canon2 + (h2.ai_socktype ? 1 : 0) + wait / 50) & 1)];
+	} else { h2.ai_socktype = SOCK_STREAM; svc = "82"; }
+	if (canon2) h2.ai_flags |= EVUTIL_AI_CANONNAME;
+	int port = svc ? atoi(svc) : 0;
+	/* drain retransmissions of the earlier round, then let the time pass */
+	dnse_ns_collect(msgs, 8);
+	advance_ms(wait * 1000 - (int)((vclock_us - *t_ref) / 1000));
+	dnse_ns_collect(msgs, 8);
+	int age = m->valid ? (int)((vclock_us - m->t_cached) / 1000000) : -1;
+	mc_observe("| +%ds age=%d fam=%s st=%d canon=%d svc=%s ", wait, age, famname(h2.ai_family), h2.ai_socktype, canon2, svc ? svc : "NULL");
+	struct gai_result g2 = {0, 0, NULL};
+	long sent0 = dnse_udp_sent_total();
+	evdns_getaddrinfo(dbase, DNAME, svc, &h2, gai_cb, &g2);
+	pump();
+	n = dnse_ns_collect(msgs, 8);
+	int hit = g2.called && dnse_udp_sent_total() == sent0;
+	struct expect e2; memset(&e2, 0, sizeof e2); e2.port = port; e2.node = DNAME;
+	if (hit) {
+		MC_COUNT("cache_hits");
+		mc_observe("HIT ");
+		*t_ref = vclock_us;
+		if (!m->valid) mc_fail("C38/cache/hit-without-original", "no successful resolution is stored, yet the request was answered without a query");
+		else {
+			/* every contributing record must still be within its TTL */
+			int a_exp = m->a_contrib && (uint32_t)age >= m->ttl_a, b_exp = m->b_contrib && (uint32_t)age >= m->ttl_6;
+			if (a_exp) mc_fail(m->b_contrib ? "C38/cache/hit-past-ttl/A-records-merged-with-AAAA" : "C38/cache/hit-past-ttl/A-records", "cache hit at age %d s, the A records had TTL %u (AAAA %u, arrival order %d)", age, m->ttl_a, m->ttl_6, m->order);
+			if (b_exp) mc_fail(m->a_contrib ? "C38/cache/hit-past-ttl/AAAA-records-merged-with-A" : "C38/cache/hit-past-ttl/AAAA-records", "cache hit at age %d s, the AAAA records had TTL %u (A %u, arrival order %d)", age, m->ttl_6, m->ttl_a, m->order);
+			if (!a_exp && !b_exp && m->have_cname && (uint32_t)age >= m->ttl_c) mc_fail("C38/cache/hit-past-ttl/CNAME-record", "cache hit at age %d s, the CNAME had TTL %u (A %u, AAAA %u)", age, m->ttl_c, m->ttl_a, m->ttl_6);
+			MC_COUNT("oracle_cache_ttl");
+			/* content: the stored answers restricted to the requested family */
+			for (int k = 0; k < m->e.n; k++)
+				if (h2.ai_family == PF_UNSPEC || m->e.addr[k].fam == (h2.ai_family == PF_INET ? AF_INET : AF_INET6)) e2.addr[e2.n++] = m->e.addr[k];
+			if (!e2.n) e2.error = 1;
+			if (canon2) {
+				if (!m->have_cname) mc_fail("C38/cache/hit-without-cname", "AI_CANONNAME request served from a cached answer that carries no CNAME (documented: not a hit)");
+				e2.canon = CANON;
+			}
+			check_ctx = (m->orig_anysock ? CTX_ORIG_ANYSOCK : 0) | (canon2 ? CTX_CANON_REQ : 0);
+			check_result("cache", &h2, &g2, &e2);
+			check_ctx = 0;
+		}
+	} else {
+		MC_COUNT("cache_misses");
+		mc_observe("MISS ");
+		/* fresh resolution: answer with the addresses of this round, one per family, TTL 60 */
+		int qa2 = find_query(msgs, n, DM_T_A), q62 = find_query(msgs, n, DM_T_AAAA);
+		if ((h2.ai_family != PF_INET6) != (qa2 >= 0) || (h2.ai_family != PF_INET) != (q62 >= 0))
+			mc_fail("C38/dns/queries-sent", "request %d, family %s: A query %s, AAAA query %s", round, famname(h2.ai_family), qa2 >= 0 ? "yes" : "no", q62 >= 0 ? "yes" : "no");
+		if (qa2 >= 0) { ns_reply(&msgs[qa2], SC_ONE, round, cname, 60, 60); pump(); }
+		if (q62 >= 0) { ns_reply(&msgs[q62], SC_ONE, round, cname, 60, 60); pump(); }
+		for (int i = 0; i < 10 && !g2.called; i++) { idle_flag = 0; event_base_loop(evbase, EVLOOP_ONCE); pump(); if (idle_flag) break; }
+		if (qa2 >= 0) side_addrs(&e2, AF_INET, SC_ONE, round);
+		if (q62 >= 0) side_addrs(&e2, AF_INET6, SC_ONE, round);
+		if (!e2.n) e2.error = 1;
+		if (canon2 && cname) e2.canon = CANON;
+		snprintf(what, sizeof what, "refetch");
+		check_result(what, &h2, &g2, &e2);
+		*t_ref = vclock_us;
+		/* the new answer replaces whatever was stored */
+		memset(m, 0, sizeof *m);
+		if (g2.called && g2.result == 0 && e2.n) {
+			m->valid = 1; m->e = e2; m->ttl_a = m->ttl_6 = m->ttl_c = 60;
+			m->a_contrib = qa2 >= 0; m->b_contrib = q62 >= 0; m->have_cname = cname; m->t_cached = vclock_us;
+			m->orig_anysock = h2.ai_socktype == 0;
+		}
+	}
+	mc_observe("-> %d ", g2.result);
+	if (g2.res) evutil_freeaddrinfo(g2.res);
+}
+
 static void dns_case(void)
 {
-	static const struct { int a, b; } ttls[] = { {10, 100}, {100, 10}, {60, 60} };
-	static const int ages[] = { 5, 50, 150 };
+	static const struct { int a, b; } ttls[] = { {10, 100}, {100, 10}, {60, 60}, {10, 10}, {200, 200} };
 	int nttl = mc_param("ttlsets", 3), ncttl = mc_param("cnamettl", 1);
 	struct evutil_addrinfo h; memset(&h, 0, sizeof h);
 	h.ai_family = fams[mc_choose(3, 0, "family")];
@@ -418,75 +518,17 @@ static void dns_case(void)
 	g1.res = NULL;
 	if (!g1.called) { mc_fail("C38/dns/no-callback", "no callback although every timer has run"); world_end(); return; }
 
-	/* ---- second request after `age` seconds ---- */
-	int age = ages[mc_choose(3, 0, "age")];
-	struct evutil_addrinfo h2; memset(&h2, 0, sizeof h2);
-	h2.ai_family = fams[mc_choose(3, 0, "family2")];
-	h2.ai_socktype = mc_choose(mc_param("stpr2", 2), 0, "socktype2") ? 0 : SOCK_STREAM;
-	int canon2 = mc_choose(2, 0, "canonname2");
-	if (canon2) h2.ai_flags |= EVUTIL_AI_CANONNAME;
-	/* service of the second request: "81", NULL or "0" (port 0: a hit must not keep the cached port).  Quick: derived from
-	 * the other choices so that both values meet every family / socktype / CANONNAME value; -P svc2=3: free choice */
-	static const char *const svc2s[] = { "81", NULL, "0" };
-	int nsvc = mc_param("svc2", 1);
-	int fam2i = h2.ai_family == PF_UNSPEC ? 0 : h2.ai_family == PF_INET ? 1 : 2;
-	const char *svc2 = svc2s[nsvc > 1 ? mc_choose(nsvc > 3 ? 3 : nsvc, 0, "service2") : ((fam2i + canon2 + (h2.ai_socktype ? 1 : 0) + age / 50) & 1)];
-	int port2 = svc2 ? atoi(svc2) : 0;
-	/* drain retransmissions of the first round, then age the cache */
-	dnse_ns_collect(msgs, 8);
-	advance_ms(age * 1000 - (int)((vclock_us - t_report) / 1000));
-	dnse_ns_collect(msgs, 8);
-	mc_observe("| age=%ds fam2=%s st2=%d canon2=%d svc2=%s ", age, famname(h2.ai_family), h2.ai_socktype, canon2, svc2 ? svc2 : "NULL");
-	struct gai_result g2 = {0, 0, NULL};
-	long sent0 = dnse_udp_sent_total();
-	rq = evdns_getaddrinfo(dbase, DNAME, svc2, &h2, gai_cb, &g2);
-	pump();
-	n = dnse_ns_collect(msgs, 8);
-	int hit = g2.called && dnse_udp_sent_total() == sent0;
-	struct expect e2; memset(&e2, 0, sizeof e2); e2.port = port2; e2.node = DNAME;
-	if (hit) {
-		MC_COUNT("cache_hits");
-		mc_observe("HIT ");
-		if (e1.error) mc_fail("C38/cache/hit-without-original", "the first resolution failed, yet the second one was answered without a query");
-		else {
-			/* every contributing record must still be within its TTL */
-			int a_contrib = sa == SC_ONE || sa == SC_TWO, b_contrib = s6 == SC_ONE || s6 == SC_TWO;
-			int a_exp = a_contrib && (uint32_t)age >= ttl_a, b_exp = b_contrib && (uint32_t)age >= ttl_6;
-			if (a_exp) mc_fail(b_contrib ? "C38/cache/hit-past-ttl/A-records-merged-with-AAAA" : "C38/cache/hit-past-ttl/A-records", "cache hit at age %d s, the A records had TTL %u (AAAA %u, arrival order %d)", age, ttl_a, ttl_6, order);
-			if (b_exp) mc_fail(a_contrib ? "C38/cache/hit-past-ttl/AAAA-records-merged-with-A" : "C38/cache/hit-past-ttl/AAAA-records", "cache hit at age %d s, the AAAA records had TTL %u (A %u, arrival order %d)", age, ttl_6, ttl_a, order);
-			if (!a_exp && !b_exp && have_cname && (uint32_t)age >= ttl_c) mc_fail("C38/cache/hit-past-ttl/CNAME-record", "cache hit at age %d s, the CNAME had TTL %u (A %u, AAAA %u)", age, ttl_c, ttl_a, ttl_6);
-			MC_COUNT("oracle_cache_ttl");
-			/* content: the stored answers restricted to the requested family */
-			for (int k = 0; k < e1.n; k++)
-				if (h2.ai_family == PF_UNSPEC || e1.addr[k].fam == (h2.ai_family == PF_INET ? AF_INET : AF_INET6)) e2.addr[e2.n++] = e1.addr[k];
-			if (!e2.n) e2.error = 1;
-			if (canon2) {
-				if (!have_cname) mc_fail("C38/cache/hit-without-cname", "AI_CANONNAME request served from a cached answer that carries no CNAME (documented: not a hit)");
-				e2.canon = CANON;
-			}
-			check_ctx = (h.ai_socktype ? 0 : CTX_ORIG_ANYSOCK) | (canon2 ? CTX_CANON_REQ : 0);
-			check_result("cache", &h2, &g2, &e2);
-			check_ctx = 0;
-		}
-	} else {
-		MC_COUNT("cache_misses");
-		mc_observe("MISS ");
-		/* fresh resolution: answer with the phase-2 addresses, one per family */
-		int qa2 = find_query(msgs, n, DM_T_A), q62 = find_query(msgs, n, DM_T_AAAA);
-		if ((h2.ai_family != PF_INET6) != (qa2 >= 0) || (h2.ai_family != PF_INET) != (q62 >= 0))
-			mc_fail("C38/dns/queries-sent", "second request, family %s: A query %s, AAAA query %s", famname(h2.ai_family), qa2 >= 0 ? "yes" : "no", q62 >= 0 ? "yes" : "no");
-		if (qa2 >= 0) { ns_reply(&msgs[qa2], SC_ONE, 2, cname, 60, 60); pump(); }
-		if (q62 >= 0) { ns_reply(&msgs[q62], SC_ONE, 2, cname, 60, 60); pump(); }
-		for (int i = 0; i < 10 && !g2.called; i++) { idle_flag = 0; event_base_loop(evbase, EVLOOP_ONCE); pump(); if (idle_flag) break; }
-		if (qa2 >= 0) side_addrs(&e2, AF_INET, SC_ONE, 2);
-		if (q62 >= 0) side_addrs(&e2, AF_INET6, SC_ONE, 2);
-		if (!e2.n) e2.error = 1;
-		if (canon2 && cname) e2.canon = CANON;
-		check_result("refetch", &h2, &g2, &e2);
+	/* ---- later requests: the cache as the reference sees it ---- */
+	struct cmodel m; memset(&m, 0, sizeof m);
+	if (!e1.error) {
+		m.valid = 1; m.e = e1; m.ttl_a = ttl_a; m.ttl_6 = ttl_6; m.ttl_c = ttl_c;
+		m.a_contrib = sa == SC_ONE || sa == SC_TWO; m.b_contrib = s6 == SC_ONE || s6 == SC_TWO;
+		m.have_cname = have_cname; m.t_cached = t_report; m.orig_anysock = h.ai_socktype == 0; m.order = order;
 	}
-	mc_observe("-> %d", g2.result);
-	if (g2.res) evutil_freeaddrinfo(g2.res);
-	dnse_ns_collect(msgs, 8);
+	int64_t t_ref = t_report;
+	int rounds = mc_param("rounds", 2);
+	for (int round = 2; round <= rounds; round++) later_round(round, &m, &t_ref, cname);
+	struct dnse_msg drain[8]; dnse_ns_collect(drain, 8);
 	world_end();
 }
 
